@@ -25,6 +25,8 @@ type Collection struct {
 	// commits counts the writes applied to byId, guarded by mu. A published change carries the number of its
 	// commit so a subscription can tell the changes its seed already shows from the ones that came after it.
 	commits uint64
+	// publishing makes the changes leave in the order of their commits
+	publishing turnstile
 	// rngMu protects rng: ids are generated while holding only the read lock of mu,
 	// so concurrent writers would otherwise use the rng at the same time
 	rngMu sync.Mutex
@@ -179,6 +181,8 @@ func (c *Collection) Update(id string, msg proto.Message, opts ...WriteOption) (
 		changeType = types.ChangeType_ADD
 		oldValue = nil
 	}
+	c.publishing.enter(commit)
+	defer c.publishing.leave(commit)
 	c.bus.Send(context.TODO(), published{commit: commit, change: &CollectionChange{
 		Id:         id,
 		ChangeTime: changeTime,
@@ -234,12 +238,14 @@ func (c *Collection) Delete(id string, opts ...WriteOption) (proto.Message, erro
 		// actually do the delete
 		delete(c.byId, id)
 		c.commits++
+		c.publishing.enter(c.commits)
 		c.bus.Send(context.TODO(), published{commit: c.commits, change: &CollectionChange{
 			Id:         id,
 			ChangeTime: args.updateTime(c.clock),
 			ChangeType: types.ChangeType_REMOVE,
 			OldValue:   oldVal.body,
 		}})
+		c.publishing.leave(c.commits)
 		c.mu.Unlock()
 		return oldVal.body, nil
 	}
